@@ -117,12 +117,20 @@ def validate(ctx, tracefile, label, samples=0, max_reports=5, keep=False):
         tot[c] = tot.get(c, 0) + n
     if bad:
         known = {k['class'] for k in vlib.load_known(ctx.prop)}
+        # signatures of defects that have been FIXED explain nothing any more: an input may still match them,
+        # but a rejection must then be explained by the remaining (open) signatures alone
+        fixed = {k['class'] for k in json.load(open(os.path.join(vlib.VERIF, 'known_findings.json')))
+                 if k.get('property') == ctx.prop and k.get('status') == 'fixed'}
+
+        def _known(c):
+            parts = [p for p in c.split('+') if p not in fixed]
+            return bool(parts) and all(p in known for p in parts)
         # one line per class (first occurrence) for known classes, up to max_reports for the others
         want = {}
         budget = collections.Counter()
         for t in sorted(bad):
             c = bad[t][0]
-            isknown = all(p in known for p in c.split('+'))
+            isknown = _known(c)
             if budget[c] < (1 if isknown else max_reports):
                 budget[c] += 1
                 want[t] = c
@@ -143,17 +151,17 @@ def validate(ctx, tracefile, label, samples=0, max_reports=5, keep=False):
         for t in sorted(want):
             c, failed = bad[t]
             e = lines[t]
-            parts = c.split('+')
-            if all(p in known for p in parts):
+            parts = [p for p in c.split('+') if p not in fixed]
+            if _known(c):
                 for p in parts:
                     ctx.report(p, '', {})
             else:
                 what = '%s %s line t=%d class=%s failed=%s' % (label, e['ev'], t, c, failed)
                 ctx.report(c, what, {'kind': 'frames', 'class': c, 'failed': failed, 'brief': _brief(e), 'lines': [e]})
         for c, n in classes.items():
-            if not all(p in known for p in c.split('+')):
+            if not _known(c):
                 unknown_total += n
-        if unknown_total > sum(1 for t in want if not all(p in known for p in want[t].split('+'))):
+        if unknown_total > sum(1 for t in want if not _known(want[t])):
             ctx.notes.append('%s: %d rejected lines outside the known classes (first ones reported)' % (label, unknown_total))
     if not keep:
         try:
